@@ -114,7 +114,7 @@ def rule_c(ctx):
             ctx.ob(R, f.qname, f"axis {d}, {kind} cells: slice on axis {d} with full slices before and ellipsis after", kind != "?" and full_before and ell, norm(s.target), s)
             ctx.ob(R, f.qname, f"axis {d}, {kind} cells: factor is {'pt' if kind == 'low' else '1 - pt'}[{d}]", fp is not None and fp == want_f, norm(fac) if fac is not None else "", s)
             ctx.ob(R, f.qname, f"axis {d}, {kind} cells: reads the faces of axis {d} in Fortran order", read is not None and norm(read) == want_read, norm(read) if read is not None else "", s)
-            ctx.ob(R, f.qname, f"axis {d}, {kind} cells: guarded by {g}.dim >= {d + 1}", dim_guard(s, f.node) == f"{g}.dim >= {d + 1}", str(dim_guard(s, f.node)), s)
+            ctx.ob(R, f.qname, f"axis {d}, {kind} cells: guarded by {g}.dim >= {d + 1}", dim_guard(s, f.node) in (f"{d + 1} <= {g}.dim", f"{d} < {g}.dim"), str(dim_guard(s, f.node)), s)
             if fp is not None:
                 factors = factors + fp
         ctx.ob(R, f.qname, f"axis {d}: one update per side and the two factors sum to 1", kinds == {"low", "high"} and factors == Poly.const(1), f"kinds {kinds}, sum {factors!r}", f.node)
@@ -160,8 +160,10 @@ def rule_d(ctx):
     arms = {}
     for n in ast.walk(f.node):
         if isinstance(n, ast.If) and f"len({cq}.shape)" in norm(n.test):
-            t = norm(n.test)
-            kind = "tensor" if f"{g}.dim + 2" in t else ("vector" if f"{cq}.shape[-1] == {g}.dim" in t and f"{g}.dim + 2" not in t else ("scalar" if f"len({cq}.shape) == {g}.dim" in t else None))
+            eqs = {frozenset((norm(c.left), norm(c.comparators[0]))) for c in ast.walk(n.test) if isinstance(c, ast.Compare) and len(c.ops) == 1 and isinstance(c.ops[0], ast.Eq)}
+            L = f"len({cq}.shape)"
+            kind = "tensor" if frozenset((L, f"{g}.dim + 2")) in eqs else ("vector" if frozenset((f"{cq}.shape[-1]", f"{g}.dim")) in eqs and frozenset((L, f"{g}.dim + 1")) in eqs
+                                                                          else ("scalar" if frozenset((L, f"{g}.dim")) in eqs else None))
             if kind:
                 arms[kind] = n.body
     want = {
